@@ -182,11 +182,11 @@ def scored_instances(tier):
         code = 0
         for o in reversed(ops):
             code = code * 16 + o
-        name = "scored_i%d_r%d_l%d_%s%s" % (items, reserved, lens, "".join("%x" % o for o in ops), "_entries" if dbg == 0 else "")
+        name = "scored_i%d_r%d_l%d_%s%s" % (items, reserved, lens, "".join("%x" % o for o in ops), "_entries" if dbg == 0 else ("_c19" if dbg & 1 else ""))
         # a timed-out lock attempt (op 8): CBMC reports invalid pointers in the later ticks of such schedules that neither the
         # native run nor Miri (same schedule, same shims) shows - those instances do not speak for C06, the owner of memory safety;
         # instances with a restart speak for C12 instead of C06 / C07 (one property per shared assertion, see scored_h.rs)
-        props = ["C07", "C19"] if 8 in ops else (["C12", "C19"] if (10 in ops or 11 in ops) else ["C06", "C07", "C19"])
+        props = (["C19"] if dbg & 1 else ["C07"]) if 8 in ops else (["C12", "C19"] if (10 in ops or 11 in ops) else ["C06", "C07", "C19"])
         i = Inst(name, 8, "scored::<%d, %d>(%d, %d, %d)" % (items, reserved, lens, code, dbg), props,
                  {"items_before": items, "reserved_unpublished_indices": reserved, "two_char_texts(bitmask)": lens, "script": [OPS[o] for o in ops],
                   "item_texts": "symbolic over {a,b}", "worker_threads": 1, "score": "table of the real MultiPattern::score", "oracle": "item count, match count = number of matching published items, status flags (entries of the match list are not read back: see scored_h.rs)"}, "nucleo_scored")
@@ -194,6 +194,8 @@ def scored_instances(tier):
         i.unwind_rules = SCORED_RULES
         i.cbmc_extra = PROTO_CBMC
         out.append(i)
+        if 8 in ops and dbg == 8:
+            add(items, reserved, lens, ops, 9)   # the same schedule with the shared count assertion under C19's label
     # calibration: one pattern edit + settle takes 25 - 40 s; every further settle multiplies the formula (two
     # settles with a reserved slot or three settles: > 12 min, 6 GB) - those stay out of both tiers
     if q:
